@@ -11,6 +11,13 @@ REPO = os.environ.get("PYVC_REPO", "/repo")
 NATIVE_PY = "/venv/bin/python"
 
 PLANS = {
+    "C07": {
+        "level": "proof",
+        "sidecars": ["pdbread"],
+        "extras": [{"name": "c07_records", "module": "bounded.c07_records", "func": "run", "python": "venv", "timeout": 3000}],
+        "explanation": "ATOM/HETATM column parser proved (layout logic), drop_water proved; reader loop and residue "
+                       "grouping enumerated over record sequences (B)",
+    },
     "C09": {
         "level": "proof",
         "sidecars": ["pqrformat", "driver"],
